@@ -722,7 +722,7 @@ pub fn gen_serde(r: &mut Rng) -> (Vec<Z>, Vec<Vec<Z>>) {
     let what = r.weighted(&[60, 25, 15]) as Z;
     // 0: typed ser, read back | 1: environment, read back | 2: environment with try_parsing |
     // 3: a tree of its own
-    let style = r.weighted(&[25, 25, 8, 42]);
+    let style = if what == 2 { r.weighted(&[25, 25, 8, 42]) } else { r.weighted(&[20, 20, 8, 37, 15]) };
     let small = style == 2;
     let mut v = vec![];
     match what {
@@ -738,6 +738,10 @@ pub fn gen_serde(r: &mut Rng) -> (Vec<Z>, Vec<Vec<Z>>) {
         0 => (vec![6, r.below(2) as Z, what, 0, 0], vec![v, vec![]]),
         1 => (vec![6, 1, what, 1, 0], vec![v, vec![]]),
         2 => (vec![6, 1, what, 1, 2], vec![v, vec![]]),
+        4 => {
+            let mask = if what == 0 { 1 + r.below(3) } else { 1 + r.below(7) };
+            (vec![6, r.below(2) as Z, what, 0, 3, mask as Z], vec![v, vec![]])
+        }
         _ => {
             let mut c = Cur::new(&v);
             let mut t = match what {
